@@ -7,6 +7,7 @@ use std::{
     future::poll_fn,
     option::Option,
     result::Result,
+    sync::Arc,
     task::{ready, Context, Poll},
 };
 
@@ -144,9 +145,15 @@ where
         &self,
         stream: FrameStream<C::BidiStream, B>,
     ) -> RequestResolver<C, B> {
+        // Created together with the resolver: the request is accounted as ended when the last
+        // handle is dropped, whether or not its headers were ever received or decoded.
+        let request_end = Arc::new(RequestEnd {
+            request_end: self.request_end_send.clone(),
+            stream_id: stream.send_id(),
+        });
         RequestResolver {
             frame_stream: stream,
-            request_end_send: self.request_end_send.clone(),
+            request_end,
             send_grease_frame: self.inner.send_grease_frame,
             max_field_section_size: self.max_field_section_size,
             shared: self.inner.shared.clone(),
